@@ -16,7 +16,8 @@
                            ('/', and '\' only when b's scheme is special)
      abs_shape txt         txt starts with a non-special scheme, or a special scheme followed by >= 2 slashes,
                            or "file:" followed by two slashes  (decided on the text)
-     mr_ok b t             the positive domain of the make_relative inverse law (Model/KnownC08.v)
+     mr_ok b t             the positive domain of the make_relative inverse law (Model/KnownC08.v; excluded classes
+                           3, 41, 42, 43, 45, 46 - see section 6)
      hier_url pre se ue hs he hi po segs last q f
                            the record  pre "/" seg "/" ... "/" last ["?" q]["#" f]  with path_start = |pre| and
                            query_start / fragment_start at the '?' / '#'  (Proofs/C08_RelMr.v)
@@ -34,7 +35,8 @@ From RU Require Import Base.Prelude Base.Utf8 Base.Utf8Facts Model.AsciiSet Gen.
   Proofs.ListN Proofs.C02_Enc Proofs.C02_Parts Proofs.C02_Opaque Proofs.C02_Path Proofs.C02_PathL1 Proofs.C02_Reach
   Proofs.C03_WF Proofs.C06_List Proofs.C06_WFI Proofs.C06_Tail
   Proofs.C08_Input Proofs.C08_Simple Proofs.C08_Contain Proofs.C08_NoAuth Proofs.C08_Absolute Proofs.C08_Relative Proofs.C08_RelEval
-  Proofs.C08_RelPath Proofs.C08_RelJoin Proofs.C08_RelMr Proofs.C08_RelLaw Proofs.C08_RelCanon Proofs.C08_RelNoAuth.
+  Proofs.C08_RelPath Proofs.C08_RelJoin Proofs.C08_RelMr Proofs.C08_RelLaw Proofs.C08_RelCanon Proofs.C08_RelNoAuth
+  Proofs.C02_AuthParts Proofs.C02_Auth Proofs.C02_AuthSp Proofs.C02_AuthMain Proofs.C08_AbsNonfile Proofs.C08_RelAuth Proofs.C08_RelRecog Proofs.C08_Parsed Proofs.C08_ContainFile.
 From RU Require Properties.C02.
 Open Scope N_scope.
 Open Scope list_scope.
@@ -145,13 +147,37 @@ Theorem C08_contain_auth : forall dbg hp hpo hd b input u',
 Proof. exact contain_auth. Qed.
 Print Assumptions C08_contain_auth.
 
-(* file bases are NOT covered by C08_contain (only by C08_empty / C08_frag / C08_query): *)
+(* file bases are NOT covered by C08_contain (only by C08_empty / C08_frag / C08_query); for them: *)
 Definition C08_contain_file_statement : Prop :=
   forall dbg hp hpo hd b input u',
   wf_b b = true -> cannot_be_a_base b = Some false -> st_is_file (b_st b) = true ->
   usv_list input -> contain_pre b input = true ->
   join dbg hp hpo hd b input = POk u' ->
   hosti u' = hosti b \/ hosti u' = HI_None.   (* the host is kept or dropped (F-C08-1), never replaced *)
+
+(* PROVED in full (every arm of parse_file with a base copies the base's host kind or stores none); the stronger
+   form needs neither wf_b nor usv_list *)
+Theorem C08_contain_file : C08_contain_file_statement.
+Proof. intros dbg hp hpo hd b input u' _ Hc Hf _ Hcp Hj. exact (contain_file dbg hp hpo hd b input u' Hc Hf Hcp Hj). Qed.
+Check C08_contain_file : forall dbg hp hpo hd b input u',
+  wf_b b = true -> cannot_be_a_base b = Some false -> st_is_file (b_st b) = true ->
+  usv_list input -> contain_pre b input = true ->
+  parse_url dbg hp hpo hd None (Some b) input = POk u' ->
+  hosti u' = hosti b \/ hosti u' = HI_None.
+Print Assumptions C08_contain_file.
+Theorem C08_contain_file_any : forall dbg hp hpo hd b input u',
+  cannot_be_a_base b = Some false -> st_is_file (b_st b) = true -> contain_pre b input = true ->
+  join dbg hp hpo hd b input = POk u' -> hosti u' = hosti b \/ hosti u' = HI_None.
+Proof. exact contain_file. Qed.
+Print Assumptions C08_contain_file_any.
+(* non-vacuity: against file://host/dir/f the references x/y?q, /x, ../.. keep the host, /c:/x and C| drop it *)
+Example C08_contain_file_inhabited :
+  file_contain_case "file://host/dir/f" "x/y?q" true = true
+  /\ file_contain_case "file://host/dir/f" "/x" true = true
+  /\ file_contain_case "file://host/dir/f" "../.." true = true
+  /\ file_contain_case "file://host/dir/f" "/c:/x" false = true
+  /\ file_contain_case "file://host/dir/f" "C|" false = true.
+Proof. exact contain_file_inhabited. Qed.
 
 (* file bases: the drive-letter branch drops the host (F-C01-1 / F-C08-1, in url/tests/expected_failures.txt);
    the fixed F-C08-5 = F-C01-4 no longer reproduces on the model *)
@@ -215,6 +241,41 @@ Example C08_absolute_auth_inhabited :
   toy_parse "http://h/a/b?q#f" = POk u /\ Fixpoint_of_reparse true toy_hp toy_hp toy_hd u
   /\ utf8_lossy (ser u) = B "http" ++ 58 :: 47 :: 47 :: B "h/a/b?q#f" /\ scheme_canon (B "http") = true.
 Proof. vm_compute. repeat split. Qed.
+
+(* PROVED for every URL parsed without a base whose scheme is not "file" (nonfile_input: decided on the input -
+   it has a scheme other than file; C02's classes (i)-(iv)): its serialization resolves to itself against ANY base
+   record b (no premise on b at all - not even well-formedness; cannot-be-a-base bases included).  Host hypotheses
+   as in C02: HostRT (the parsing clauses of HostOK; HostOK implies it, C02_AuthParts.HostOK_RT) and host_above
+   (displayed hosts are above U+0020).  What is missing towards C08_absolute_statement: u with scheme "file",
+   u produced by a join or by a setter rather than by a no-base parse. *)
+Theorem C08_absolute_nonfile : forall dbg hp hpo hd, HostRT hp hpo hd -> host_above hp hpo hd ->
+  forall b input u, usv_list input -> nonfile_input input = true ->
+  parse_url dbg hp hpo hd None None input = POk u ->
+  join dbg hp hpo hd b (utf8_lossy (ser u)) = POk u.
+Proof. intros dbg hp hpo hd HRT HAb b input u. exact (absolute_nonfile dbg hp hpo hd HRT b input u HAb). Qed.
+Check C08_absolute_nonfile : forall dbg hp hpo hd, HostRT hp hpo hd -> host_above hp hpo hd ->
+  forall b input u, usv_list input -> nonfile_input input = true ->
+  parse_url dbg hp hpo hd None None input = POk u ->
+  parse_url dbg hp hpo hd None (Some b) (utf8_lossy (ser u)) = POk u.
+Print Assumptions C08_absolute_nonfile.
+(* the same under HostOK, the hypothesis of C08_absolute_statement *)
+Theorem C08_absolute_nonfile_HostOK : forall dbg hp hpo hd, HostOK hp hpo hd -> host_above hp hpo hd ->
+  forall b input u, usv_list input -> nonfile_input input = true ->
+  parse_url dbg hp hpo hd None None input = POk u ->
+  join dbg hp hpo hd b (utf8_lossy (ser u)) = POk u.
+Proof. intros dbg hp hpo hd HOK HAb b input u. exact (absolute_nonfile_HostOK dbg hp hpo hd b input u HOK HAb). Qed.
+Print Assumptions C08_absolute_nonfile_HostOK.
+(* non-vacuity: the host hypotheses have an instance (C02_host_hypotheses_inhabited); with it five inputs of the
+   class (special with '\' and a default port, special without slashes, non-special with credentials and port,
+   authority-less with the "/." marker, opaque) resolve to themselves against special, file, opaque bases *)
+Example C08_absolute_nonfile_inhabited :
+  (HostRT ex_hp ex_hp ex_hd /\ host_above ex_hp ex_hp ex_hd)
+  /\ ex_abs "HTTP:\\u@h.x:80\a\..\b?q'#f" "http://other/dir/file?x#y" = true
+  /\ ex_abs "http:h.x" "http://other/dir/file" = true
+  /\ ex_abs "a://u:p@h.x:81/a/../b?q#f" "file:///c:/x" = true
+  /\ ex_abs "a:/..//x" "about:blank" = true
+  /\ ex_abs "mailto:x@y?subject=%41" "ws://h/" = true.
+Proof. split; [exact ex_host_RT | exact abs_nonfile_inhabited]. Qed.
 
 (* the two classes where C02 proved re-parsing: opaque paths and authority-less '/'-led paths *)
 Theorem C08_absolute_opaque : forall dbg hp hpo hd ovr b sch P q f, opaque_ok sch P q f ->
@@ -325,6 +386,121 @@ Example C08_relative_noauth_inhabited :
   /\ mr_holds "a:/x" "a:/" "/" = true.
 Proof. vm_compute. repeat split. Qed.
 
+(* PROVED: C08_relative_statement for ALL parse results of non-file schemes - base and target each parsed without a
+   base from an input with a scheme other than "file" (nonfile_input; any of C02's classes: special, non-special
+   with authority, authority-less, opaque - for an opaque record MR_ok is false, and so it is for two records of
+   different classes).  No canonical-form premise: C02's L1 supplies the form, C02's L3 identifies the target with
+   the record that has the base's stored offsets.  Hypotheses on the host functions as in C02 (HostRT + host_above;
+   HostOK implies HostRT).
+   What is STILL MISSING towards C08_relative_statement:
+     (a) base and target both with scheme "file" (if only one is a file URL make_relative answers None -
+         C08_relative_nonfile below asks for a non-file BASE only, as a premise on the record);
+     (b) records produced by join or by the setters rather than by a no-base parse - for those that are in one of
+         C02's three hierarchical canonical forms see C08_relative_canon_forms below;
+     (c) the statement assumes HostOK only, the theorem also host_above (HostOK does not say that displayed
+         hosts are free of trailing spaces - a gap of the hypothesis, see Properties/C02.v section G). *)
+Theorem C08_relative_parsed : forall dbg hp hpo hd, HostRT hp hpo hd -> host_above hp hpo hd ->
+  forall bi ti b t r, usv_list bi -> usv_list ti ->
+  nonfile_input bi = true -> nonfile_input ti = true ->
+  parse_url dbg hp hpo hd None None bi = POk b -> parse_url dbg hp hpo hd None None ti = POk t ->
+  mr_ok b t = true -> make_relative dbg b t = Some (Some r) ->
+  join dbg hp hpo hd b r = POk t.
+Proof. intros dbg hp hpo hd HRT HAb bi ti b t r. exact (relative_parsed dbg hp hpo hd HRT bi ti b t r HAb). Qed.
+Check C08_relative_parsed : forall dbg hp hpo hd, HostRT hp hpo hd -> host_above hp hpo hd ->
+  forall bi ti b t r, usv_list bi -> usv_list ti ->
+  nonfile_input bi = true -> nonfile_input ti = true ->
+  parse_url dbg hp hpo hd None None bi = POk b -> parse_url dbg hp hpo hd None None ti = POk t ->
+  mr_ok b t = true -> make_relative dbg b t = Some (Some r) ->
+  parse_url dbg hp hpo hd None (Some b) r = POk t.
+Print Assumptions C08_relative_parsed.
+Theorem C08_relative_parsed_HostOK : forall dbg hp hpo hd, HostOK hp hpo hd -> host_above hp hpo hd ->
+  forall bi ti b t r, usv_list bi -> usv_list ti ->
+  nonfile_input bi = true -> nonfile_input ti = true ->
+  parse_url dbg hp hpo hd None None bi = POk b -> parse_url dbg hp hpo hd None None ti = POk t ->
+  mr_ok b t = true -> make_relative dbg b t = Some (Some r) ->
+  join dbg hp hpo hd b r = POk t.
+Proof. intros dbg hp hpo hd HOK HAb bi ti b t r. exact (relative_parsed_HostOK dbg hp hpo hd bi ti b t r HOK HAb). Qed.
+Print Assumptions C08_relative_parsed_HostOK.
+
+(* THE STATEMENT ITSELF for every base that is not a file URL: the class premise read off the record (a parse
+   result carries the scheme the parser read, Proofs/C17_Scheme.v; make_relative answers Some only for equal
+   schemes, so nothing is asked of the target).  C08_relative_statement = this theorem without the premise
+   st_is_file (b_st b) = false and with HostOK alone in place of HostRT + host_above. *)
+Theorem C08_relative_nonfile : forall dbg hp hpo hd, HostRT hp hpo hd -> host_above hp hpo hd ->
+  forall b t r, parsed dbg hp hpo hd b -> parsed dbg hp hpo hd t -> st_is_file (b_st b) = false ->
+  mr_ok b t = true -> make_relative dbg b t = Some (Some r) ->
+  join dbg hp hpo hd b r = POk t.
+Proof.
+  intros dbg hp hpo hd HRT HAb b t r (bi & Hub & Pb) (ti & Hut & Pt) Hnf Hok Hmr.
+  exact (relative_parsed_nonfile dbg hp hpo hd HRT HAb bi ti b t r Hub Hut Pb Pt Hnf Hok Hmr).
+Qed.
+Check C08_relative_nonfile : forall dbg hp hpo hd, HostRT hp hpo hd -> host_above hp hpo hd ->
+  forall b t r,
+  (exists input, usv_list input /\ parse_url dbg hp hpo hd None None input = POk b) ->
+  (exists input, usv_list input /\ parse_url dbg hp hpo hd None None input = POk t) ->
+  st_is_file (scheme_type_of (nfirstn (scheme_end b) (ser b))) = false ->
+  mr_ok b t = true -> make_relative dbg b t = Some (Some r) ->
+  parse_url dbg hp hpo hd None (Some b) r = POk t.
+Print Assumptions C08_relative_nonfile.
+(* likewise the absolute law for every parse result whose scheme is not file, against every base record *)
+Theorem C08_absolute_parsed_nonfile : forall dbg hp hpo hd, HostRT hp hpo hd -> host_above hp hpo hd ->
+  forall u b, parsed dbg hp hpo hd u -> st_is_file (b_st u) = false ->
+  join dbg hp hpo hd b (utf8_lossy (ser u)) = POk u.
+Proof.
+  intros dbg hp hpo hd HRT HAb u b (input & Hu & Hp) Hnf.
+  exact (absolute_parsed_nonfile dbg hp hpo hd HRT HAb b input u Hu Hp Hnf).
+Qed.
+Print Assumptions C08_absolute_parsed_nonfile.
+
+(* ... and for records of ANY origin (parser, join, setters) that are in one of C02's three hierarchical canonical
+   forms (Properties/C02.v: canon_noauth, canon_auth .. STNotSpecial, canon_special) *)
+Theorem C08_relative_canon_forms : forall dbg hp hpo hd, HostRT hp hpo hd ->
+  forall b t r,
+  (Properties.C02.canon_noauth b \/ canon_auth hp hpo hd STNotSpecial b \/ canon_special hp hpo hd b) ->
+  (Properties.C02.canon_noauth t \/ canon_auth hp hpo hd STNotSpecial t \/ canon_special hp hpo hd t) ->
+  mr_ok b t = true -> make_relative dbg b t = Some (Some r) ->
+  join dbg hp hpo hd b r = POk t.
+Proof. intros dbg hp hpo hd HRT b t r. exact (relative_canon_forms dbg hp hpo hd b t r HRT). Qed.
+Print Assumptions C08_relative_canon_forms.
+
+(* the computable domain rel_canon of C08_relative_canon is COMPLETE on parse results: every pair of non-file
+   parse results inside MR_ok passes the test (hier_canon, rel_base_ok, rel_target_ok, main_eqb all answer true) -
+   C02's canonical forms imply C08's recognisers.  The length premise is rel_target_ok's bound on the whole
+   target (C02's forms bound the stored offsets only). *)
+Theorem C08_rel_canon_parsed : forall dbg hp hpo hd, HostRT hp hpo hd -> host_above hp hpo hd ->
+  forall bi ti b t, usv_list bi -> usv_list ti ->
+  nonfile_input bi = true -> nonfile_input ti = true ->
+  parse_url dbg hp hpo hd None None bi = POk b -> parse_url dbg hp hpo hd None None ti = POk t ->
+  mr_ok b t = true -> nlen (ser t) <= U32_MAX_P -> rel_canon b t = true.
+Proof. intros dbg hp hpo hd HRT HAb bi ti b t. exact (parsed_rel_canon hp hpo hd HRT dbg bi ti b t HAb). Qed.
+Check C08_rel_canon_parsed : forall dbg hp hpo hd, HostRT hp hpo hd -> host_above hp hpo hd ->
+  forall bi ti b t, usv_list bi -> usv_list ti ->
+  nonfile_input bi = true -> nonfile_input ti = true ->
+  parse_url dbg hp hpo hd None None bi = POk b -> parse_url dbg hp hpo hd None None ti = POk t ->
+  mr_ok b t = true -> nlen (ser t) <= U32_MAX_P ->
+  (hier_canon b && hier_canon t && rel_base_ok b && rel_target_ok (b_st b) t && main_eqb b t && mr_ok b t) = true.
+Print Assumptions C08_rel_canon_parsed.
+(* per record: C02's canonical record with authority and a non-empty path passes the three recognisers *)
+Theorem C08_canon_recognised : forall hp hpo hd st sch ui h pt segs last q f, st_is_file st = false ->
+  auth_ok hp hpo hd st sch ui h pt (Some (segs, last)) q f ->
+  let u := auth_url hd sch ui h pt (Some (segs, last)) q f in
+  hier_canon u = true /\ rel_base_ok u = true /\ b_st u = st
+  /\ ((st = STSpecialNotFile -> pth_ok_sp (Some (segs, last))) -> nlen (ser u) <= U32_MAX_P -> rel_target_ok st u = true).
+Proof. exact auth_recognised. Qed.
+Print Assumptions C08_canon_recognised.
+
+(* non-vacuity: with the host functions of C02_host_hypotheses_inhabited, five pairs of inputs of the class
+   ("HTTP:\\..\a\d\.\e" is read as http://../a/d/e) whose parse results are inside MR_ok, the reference
+   make_relative answers, and its resolution *)
+Example C08_relative_parsed_inhabited :
+  (HostRT ex_hp ex_hp ex_hd /\ host_above ex_hp ex_hp ex_hd)
+  /\ ex_mr "http://u@h.x:81/a/b/c?q" "HTTP:\\u@h.x:81\a\d\.\e#f" "../d/e#f" = true
+  /\ ex_mr "https://h/a/b" "https://h/a/b?x" "?x" = true
+  /\ ex_mr "a://u:p@h.x:81/x/y" "a://u:p@h.x:81/x/z\w?q" "z\w?q" = true
+  /\ ex_mr "a:///x/y" "a:///" "../" = true
+  /\ ex_mr "a:/x/y" "a:/z" "../z" = true.
+Proof. split; [exact ex_host_RT | exact rel_parsed_inhabited]. Qed.
+
 (* non-vacuity: pairs of parse results inside rel_canon (with the reference make_relative answers), and the
    explicit form of one pair *)
 Example C08_relative_canon_inhabited :
@@ -375,11 +551,26 @@ Print Assumptions C08_4c_refuted.
 Theorem C08_4d_refuted : mr_witness 3 "a:/x" "a:///x" = true.
 Proof. exact F_C08_4d_refuted. Qed.
 Print Assumptions C08_4d_refuted.
+(* class 45 (narrowed: outside file URLs only the base's directory segments that '..' has to pop count) *)
 Theorem C08_4e_refuted :
   mr_witness 45 "http://h/c:/a" "http://h/b" = true /\ mr_witness 45 "file:///c:/a/b" "file:///d:/x" = true
-  /\ mr_witness 45 "non-spec:/" "non-spec:/c:" = true.
+  /\ mr_witness 45 "non-spec:/c:/a" "non-spec:/b" = true /\ mr_witness 45 "a://h/x/c|/f" "a://h/x/y" = true.
 Proof. exact F_C08_4e_refuted. Qed.
 Print Assumptions C08_4e_refuted.
+(* the former third witness of class 45 is in class 42 now (the reference "c:" reads as a scheme) *)
+Theorem C08_4b_drive_refuted : mr_witness 42 "non-spec:/" "non-spec:/c:" = true.
+Proof. exact F_C08_4b_drive_refuted. Qed.
+Print Assumptions C08_4b_drive_refuted.
+(* ... and the pairs that the narrowing moved INTO MR_ok satisfy the law (covered by C08_relative_parsed): a
+   drive-letter-shaped segment in the common prefix, in the target only, as the base's file name, as a target file
+   name behind a directory *)
+Example C08_drive_inhabited :
+  mr_holds "http://h/c:/a" "http://h/c:/b" "b" = true
+  /\ mr_holds "http://h/a/b" "http://h/c:/d" "../c:/d" = true
+  /\ mr_holds "a://h/a/c:" "a://h/a/x" "x" = true
+  /\ mr_holds "non-spec:/a/b" "non-spec:/a/d/c|" "d/c|" = true
+  /\ mr_holds "ws://h/c:/d:/e" "ws://h/c:/d:/e/f:" "e/f:" = true.
+Proof. exact MR_ok_drive_inhabited. Qed.
 Theorem C08_dots_refuted : match toy_parse "a:/y" with POk b => mr_refutes 46 b t_dots | _ => false end = true.
 Proof. exact class_46_refuted. Qed.
 Print Assumptions C08_dots_refuted.
